@@ -337,6 +337,10 @@ def lit_fraction(node: ast.Constant):
 
 
 def binop(op, a, b, node=None):
+    if hasattr(a, "skv_binop"):
+        return a.skv_binop(op, b, False)
+    if hasattr(b, "skv_binop"):
+        return b.skv_binop(op, a, True)
     if isinstance(a, Arr) or isinstance(b, Arr):
         return Arr.zip(a, b, lambda x, y: binop(op, x, y, node))
     if isinstance(a, StoreArr) and is_scalar(b):
@@ -821,6 +825,10 @@ class Interp:
                 r = a in b
                 return r if isinstance(op, ast.In) else not r
             raise Unsupported("membership test", node)
+        if isinstance(a, SymInt):
+            a = a.value
+        if isinstance(b, SymInt):
+            b = b.value
         if isinstance(a, Poly) and a.is_const():
             a = a.const_value()
         if isinstance(b, Poly) and b.is_const():
